@@ -10,7 +10,7 @@ Rust `core`; composition: value-preserving re-spelling ⇒ reads back to the sam
 Literals are quantified generatively (`Spec/Dec.Lit`): `Lit.strict` = RFC 8259, `Lit.wf` = RFC 8259
 plus the reader leniencies the code documents (leading `+`, redundant leading zeros, leading `.`).
 -/
-import SuccinctlyVerif.Proof.NumFmt
+import SuccinctlyVerif.Proof.NumFmtExp
 namespace SV.Props.C10
 open SV SV.Dec SV.NumFmt
 
@@ -110,18 +110,80 @@ theorem jq_literal_value_preserving_partial (cap : Nat) (l : Lit) (hw : l.wf) (h
 example : formatNumberJqCompat 100000 "+007.50".toList = "7.50".toList := by decide
 example : formatNumberJqCompat 100000 "-.5".toList = "-0.5".toList := by decide
 
-/-- The full statement for the literal re-formatter (not asserted; proved so far only for
-`l.exp = none`, see `jq_literal_value_preserving_partial`): for every literal of the lenient grammar
-whose significant-digit count is at most `cap + 1` and whose exponent arithmetic stays inside `i128`,
-the printed text denotes the same signed value and is an RFC 8259 number – for whatever class
-(`fin`/`zero`) the trusted `core` parser assigns to the literal. -/
+/-- The full statement for the literal re-formatter: for every literal of the lenient grammar whose
+significant-digit count is at most `cap + 1` and whose exponent arithmetic stays inside `i128`
+(written exponent magnitude + mantissa length `< 2^127`, so neither `parse_literal_exponent` nor the
+`checked_add`/`checked_sub` of the shift saturates), the printed text denotes the same signed value
+and is an RFC 8259 number – for whichever class (`fin` / `zero`) the trusted `core` parser assigns to
+the literal.  Proved as `jq_literal_value_preserving`. -/
 def jq_literal_full_statement : Prop :=
   ∀ (cap : Nat) (l : Lit), l.wf →
     ((trimStartZeros (l.ip ++ l.frac.getD [])).length ≤ cap + 1) →
-    (∀ m s d, l.exp = some (m, s, d) → (digitsVal d : Int) + (l.ip ++ l.frac.getD []).length < 2 ^ 127) →
+    (∀ m s d, l.exp = some (m, s, d) → (digitsVal d : Int) + ((l.ip ++ l.frac.getD []).length : Int) < 2 ^ 127) →
     (classify l.text = .fin ∨ classify l.text = .zero) →
     sameVal (parseDec (formatNumberJqCompat cap l.text)) (parseDec l.text) ∧
     isJsonNumber (formatNumberJqCompat cap l.text) = true
+
+/-- `format_number_jq_compat` is value- and sign-preserving and prints an RFC 8259 number on every
+literal of the lenient grammar (RFC 8259 plus leading `+`, redundant leading zeros, leading `.`), with
+or without exponent part, that has at most `cap + 1` significant digits and a non-saturating
+exponent, whether the double it parses to is finite non-zero (`format_shifted_mantissa` window,
+`try_positive_shifted_plain`, `assemble_scientific`) or zero (`format_near_zero_literal`, both arms).
+Not covered (outside the property: not a finite double / saturated arithmetic): literals that overflow
+`f64` (`format_overflow_literal_mantissa`; helper lemma `formatOverflowLiteralMantissa_good` covers
+it below the `10^9` ceiling), saturated `i128` exponents (`assemble_scientific_from_raw_exponent`),
+more than `cap + 1` digits (`jq_literal_cap_truncates`, finding F-C10-1). -/
+theorem jq_literal_value_preserving : jq_literal_full_statement := by
+  intro cap l hw hcap hfit hcls
+  cases hexp : l.exp with
+  | none => exact jq_literal_value_preserving_partial cap l hw hexp
+  | some x =>
+    obtain ⟨m, s, d⟩ := x
+    have hfit' : ExpFits l s d := hfit m s d hexp
+    have hne : classify l.text ≠ .err := by rcases hcls with h | h <;> rw [h] <;> simp
+    rw [formatNumberJqCompat_exp cap l hw m s d hexp hne, parseDec_text l hw]
+    have he := hw.exp
+    rw [hexp] at he
+    simp only at he
+    have hmant : l.toDec.mant = digitsVal (trimStartZeros (l.ip ++ l.frac.getD [])) := by
+      rw [digitsVal_trimStartZeros]; rfl
+    have hexpv : l.toDec.exp = expOf s d - ((l.frac.getD []).length : Int) := by
+      simp [Lit.toDec, hexp, expOf]
+    have hcm := classify_text l hw
+    suffices h : Good (formatExpLiteral cap (classify l.text) (l.sign == ['-']) (rawOf l) (s ++ d)) l.toDec from h
+    cases hsig : trimStartZeros (l.ip ++ l.frac.getD []) with
+    | nil =>
+      rw [hsig] at hmant hcm
+      rw [hcm, classifyMag_nil]
+      have hn := normalizeExtreme_nil l hw (s ++ d) (some cap) hsig
+      have hE : -(digitsVal d : Int) ≤ expOf s d ∧ expOf s d ≤ (digitsVal d : Int) := by
+        unfold expOf; split <;> omega
+      have hfit2 : (digitsVal d : Int) + ((l.ip.length : Int) + ((l.frac.getD []).length : Int)) < 2 ^ 127 := by
+        have := hfit'; unfold ExpFits at this; simpa [List.length_append] using this
+      have := formatNearZeroLiteral_zero_good cap (rawOf l) s d he.2.1 he.2.2.1 he.2.2.2
+        (l.frac.getD []).length hn (by simp only [I128_MIN, I128_MAX]; omega)
+        (by simp only [I128_MIN, I128_MAX]; omega) (l.sign == ['-']) l.toDec.exp
+      have hd : l.toDec = ⟨l.sign == ['-'], 0, l.toDec.exp⟩ := by
+        have : l.toDec = ⟨l.toDec.neg, l.toDec.mant, l.toDec.exp⟩ := rfl
+        rw [this, hmant]; rfl
+      rw [hd]; exact this
+    | cons lead full =>
+      have hN := normed_of_lit l hw m s d hexp hfit' lead full hsig
+      have hcap' : full.length ≤ cap := by rw [hsig] at hcap; simpa using hcap
+      have hd : l.toDec = ⟨l.sign == ['-'], digitsVal (lead :: full),
+          expOf s d + ((full.length : Int) - ((l.frac.getD []).length : Int)) - (full.length : Int)⟩ := by
+        have : l.toDec = ⟨l.toDec.neg, l.toDec.mant, l.toDec.exp⟩ := rfl
+        rw [this, hmant, hexpv, hsig]
+        congr 1; omega
+      rw [hd]
+      rcases hcls with h | h <;> rw [h]
+      · exact formatExpLiteral_fin_good hN cap hcap' _
+      · exact formatNearZeroLiteral_good hN cap hcap' _
+
+example : Lit.wf ⟨[], "12".toList, some "50".toList, some ('e', ['-'], "3".toList)⟩ :=
+  { sign := Or.inl rfl, ip := by decide, frac := ⟨by decide, by simp⟩,
+    exp := ⟨Or.inl rfl, Or.inr (Or.inl rfl), by decide, by simp⟩ }
+example : Lit.text ⟨[], "12".toList, some "50".toList, some ('e', ['-'], "3".toList)⟩ = "12.50e-3".toList := by decide
 
 /-- The digit-cap side condition of `jq_literal_full_statement` is necessary: with a cap of 2 digits
 `normalize_extreme_literal_mantissa` turns the five-digit mantissa of `1.2345e-10` into `1.23`
@@ -206,5 +268,14 @@ example : Lit.strict ⟨['-'], ['1'], some ['5'], some ('e', ['-'], ['7'])⟩ :=
   { sign := by simp [isSignStr], ip := by decide, frac := ⟨by decide, by simp⟩,
     exp := ⟨Or.inl rfl, by simp [isSignStr], by decide, by simp⟩,
     noPlus := by simp, int := Or.inr ⟨'1', [], rfl, by decide⟩ }
+
+/-- The boolean RFC 8259 recogniser `isJsonNumber` (the model of `json::validate::is_valid_number`)
+accepts exactly the texts of strict literals of the generative grammar `Lit` over which the
+theorems above quantify (soundness and completeness). -/
+theorem json_number_grammar_iff (s : Str) : isJsonNumber s = true ↔ ∃ l : Lit, l.strict ∧ l.text = s :=
+  ⟨isJsonNumber_sound s, fun ⟨l, hs, ht⟩ => ht ▸ isJsonNumber_text l hs⟩
+
+example : isJsonNumber "-0.50E+7".toList = true := by decide
+example : isJsonNumber "007".toList = false := by decide
 
 end SV.Props.C10
